@@ -164,9 +164,11 @@ namespace link_layer
             template < class Layout >
             static bool parse_and_check_params( const write_buffer& request, read_buffer response, requested_connection_parameters& params )
             {
-                static constexpr std::uint16_t interval_minimum = 5u;
+                static constexpr std::uint16_t interval_minimum = 6u;
                 static constexpr std::uint16_t interval_maximum = 3200u;
                 static constexpr std::uint16_t latency_maximum  = 499u;
+                static constexpr std::uint16_t timeout_minimum  = 10u;
+                static constexpr std::uint16_t timeout_maximum  = 3200u;
 
                 const std::uint8_t* const body       = Layout::body( request ).first;
 
@@ -180,7 +182,9 @@ namespace link_layer
                 if ( params.max_interval < params.min_interval
                   || params.min_interval < interval_minimum
                   || params.max_interval > interval_maximum
-                  || params.latency > latency_maximum )
+                  || params.latency > latency_maximum
+                  || params.timeout < timeout_minimum
+                  || params.timeout > timeout_maximum )
                 {
                     fill< Layout >( response, {
                         ll_control_pdu_code, 3,
